@@ -9,25 +9,32 @@ PID = "C13"
 CLAIM = dict(
     text="Machine-checked Coq theorems over an executable model of DocumentPrinter (every print method transcribed as "
          "its sequence of writes, source(span) copies, indent()/newline()/inc()/dec() calls; an interpreter carrying "
-         "the indent state and the `indented` flag; doc-comment line splitting and trimming) composed with the C12 "
-         "lexer/parser models: for every tree whose leaves are what the source has at their spans (proved to hold "
-         "for every tree Document::parse returns), the tokens the repaired printer writes are re-parsed to a tree equal to "
-         "the original up to source positions and doc-comment line splitting (print_tokens_roundtrip, all node "
-         "classes up to documents), printing that tree again gives the same commands (print_idempotent at token/"
-         "command level), and the three defects of the unrepaired printer are refuted by vm_compute witnesses "
-         "(targets keyword omitted; non-final `...` printed without comma; blank doc line printed then dropped). "
-         "render_lex (the printed text lexes to exactly the intended tokens) is stated and proved per piece class "
-         "as far as listed in props/C13.v. The model is tied to the code on every run by a byte-for-byte "
-         "correspondence of the printed text on ~4.5k documents (grammar-generated with randomised layout and "
-         "comments, every .wac file of the repository and re-laid-out copies, probes per construct), and the "
-         "specification predicate (re-parse succeeds, normalised trees equal, second print identical) is evaluated "
-         "on the real parser/printer for each of them.",
+         "the indent state and the `indented` flag and performing the byte-offset slicing with an explicit panic "
+         "outcome; doc-comment line splitting and trimming) composed with the C12 lexer/parser models. Proved for "
+         "EVERY document the parser model accepts and the printer with the three repairs of hooks/fix-c13-*.patch: "
+         "parse_wf (every leaf of the tree is the source text at its span; no empty variant/record/flags/enum/tuple), "
+         "print_no_panic, print_tokens_roundtrip (all node classes up to whole documents: the token stream the "
+         "printed pieces denote is parsed back -- via the C12 completeness theorem -- to a tree equal to the original "
+         "up to source positions and doc-comment line splitting), print_idempotent at token level (printing that "
+         "tree out of the printed text gives the same pieces), nothing_dropped, and the layout half of render_lex "
+         "(blanks, line feeds, doc lines, doc-comment attachment, byte offsets, fuel). The remaining half of "
+         "render_lex -- scan_token at each token boundary returns the intended token -- is a hypothesis of the "
+         "text-level theorem print_roundtrip_partial. The three defects of the unrepaired printer are refuted by "
+         "vm_compute witnesses (targets keyword omitted; non-final `...` printed without comma; blank doc line "
+         "printed then dropped), each replayed on the real code on every run. The model is tied to the code by a "
+         "byte-for-byte correspondence of the printed text on ~4.5k documents (grammar-generated with randomised "
+         "layout and comments, every .wac file of the repository and re-laid-out copies, a probe per construct), "
+         "and the specification predicate (re-parse succeeds, normalised trees equal, second print identical) is "
+         "evaluated on the real parser/printer for each of them.",
     design_ref="DESIGN.md §5 C13, §7 items 4, 5, 13, §8",
     note="Trusted: Coq kernel; extraction (ExtrOcamlBasic); OCaml driver; Rust harness (incl. its span-stripping/"
          "doc-normalising canonicaliser, cross-checked against the extracted `sn` on every case); Printer.v is "
-         "hand-written from printer.rs and validated by correspondence; Lexer.v/Parser.v as in C12.",
-    technique="Coq proof (printer commands vs tree-indexed grammar, via the C12 completeness theorem) + "
-              "extracted-model correspondence + specification predicate evaluated on the implementation")
+         "hand-written from printer.rs and validated by correspondence; Lexer.v/Parser.v as in C12. Not proved: "
+         "the per-token boundary facts of render_lex (covered by the correspondence: the model's re-parse lexes "
+         "the printed text, and the real lexer does the same).",
+    technique="Coq proof (printer commands vs tree-indexed grammar, via the C12 soundness/completeness theorems and "
+              "the lexer tiling lemma) + extracted-model correspondence + specification predicate evaluated on the "
+              "implementation")
 
 # The three printer defects known at design time, each confirmed on the real code. Until the main session moves them
 # into /verif/known-findings.json (or applies hooks/fix-c13-*.patch) they are consulted from here (BUILDING.md).
@@ -274,8 +281,9 @@ def run(res, tier, seed, replay):
             "the harness's strip_norm (spans -> @0+0, docs -> non-empty trimmed lines) implements spec/PrintSpec.v `sn`; "
             "checked on every case against the extracted `sn` of the parser model's tree",
             "Rust str::lines / str::trim modelled by Printer.rust_lines / Lexer.trim (Unicode White_Space table)",
-            "render_lex is proved only as far as stated in props/C13.v; the remaining piece classes are covered by "
-            "the correspondence (the re-parse of the printed text is run on the real lexer and on the lexer model)",
+            "render_lex is proved only as far as stated in props/C13.v (layout half); the token-boundary half is "
+            "covered by the correspondence (the re-parse of the printed text is run on the real lexer and on the "
+            "lexer model)",
             "serde / serde_json serialisation of the AST and miette::SourceSpan (canonicalised by the harness)"]))
     res.assumptions = ["source texts are valid UTF-8 (Rust &str); the model works on Unicode scalar values",
                        "DocumentPrinter is used with space = None (four blanks), as everywhere in the repository",
